@@ -12,12 +12,15 @@ Sub-checks
 import pickle
 import itertools
 
+import os
+
 from hypothesis import strategies as st
 
 import glom
 from glom import T, S, A, Path, Spec, GlomError, PathAccessError
 from glom.core import TType
 
+from .. import fuzzrun
 from ..runner import Sub, Mismatch
 from .. import targets as tg
 from .. import texpr as tx
@@ -503,4 +506,5 @@ SUBS = [
         floors={'kind-path': 0.1, 'root-S': 0.1, 'root-A': 0.05}),
     Sub('seq', check_seq, gen=gen_seq, quick=3000, thorough=10000, floors={'compose-ok': 0.02}),
     Sub('index', check_index, enum=enum_index),
+    fuzzrun.fuzz_sub('fuzz-roundtrip', 'hyp:c18:roundtrip', runs=30000, campaigns=4, replay_sub='roundtrip'),
 ]
